@@ -306,8 +306,10 @@ prop("C04",
      assumptions=["bufio.Reader and go-codec's ioDecReader are modelled as a chunk oracle (any non-empty prefix per Read)"])
 prop("C05",
      lean=["FmpRpc.Tie.C05", "FmpRpc.Props.C05"],
-     runs=[dict(mode="dec", n=(4000, 60000), judge="dec")],
-     rule=RULE_DEC,
+     runs=[dict(mode="dec", n=(4000, 60000), judge="dec"), dict(mode="alloc", n=(150, 1500), judge="eq")],
+     rule=RULE_DEC + " || alloc: frames whose inner msgpack lengths claim up to 2^31 elements / bytes (argument, tag map, "
+          "method name, result, nested) with a 16 MiB frame limit and only a few bytes present: bytes allocated per frame "
+          "(runtime.MemStats) must stay below max + 8 MiB",
      assumptions=["absence of panics, allocation bounds and hangs are runtime behaviour: observed by the run, not proved"])
 
 RULE_SESSION = ("two transports of the library talk over a simulated connection inside a synctest bubble; every goroutine of "
